@@ -12,6 +12,7 @@
                    applied to this copy): a wrong gradient makes the descent fit worse than its uniform start
   feasibility-form   the quantity LocalInference compares with its fixed threshold is, in every oracle class, the plain mean over
                    overlapping region pairs of the L1 gap between their marginals on the shared attributes (same unit in all siblings)
+  restart-on-increase   mirror_descent_auto restarts with a halved step only on a strict increase of the loss
   region-structure   the parent/child edges of the region graph are the covering relation of the regions under inclusion
   returns-own-iterate   estimation stores the (parameters, marginals) the inner loop returned
   per-call-options   a key written into a parameter with a shared mutable default (`options={}`) is written on every path before the
@@ -28,6 +29,55 @@ from ..srcmodel import AnalysisError, U, calls_in, target_names
 LI = 'src/mbi/local_inference.py'
 INIT = 'src/mbi/__init__.py'
 DOCUMENTED = ['convex', 'approx', 'pairwise']
+
+
+def check_restart_test(ctx):
+    """mirror_descent_auto starts over with half the step size when the loss went UP.  The test must be a strict increase (`l > prev_l`, or
+    `not (l <= prev_l)` which also catches NaN): with `>=` / `not (l < prev_l)` a loss that merely stalls - measurements already matched, a
+    single-cell clique, a lone total query - restarts at every step size, and the recursion never ends."""
+    name = 'LocalInference.mirror_descent_auto'
+    if not ctx.repo.has_func(LI, name):
+        raise AnalysisError('anchor vanished: ' + name)
+    fi = ctx.repo.func(LI, name)
+    ctx.analysed(fi)
+    for n in ast.walk(fi.node):
+        for ch in ast.iter_child_nodes(n):
+            ch._parent = n
+    rec = [c for c in ast.walk(fi.node) if isinstance(c, ast.Call) and U(c.func) == 'self.' + fi.name]
+    if not rec:
+        return
+    n_ob = 0
+    for c in rec:
+        tests = []
+        p_ = getattr(c, '_parent', None)
+        while p_ is not None and p_ is not fi.node:
+            if isinstance(p_, ast.If):
+                tests.append(p_.test)
+            p_ = getattr(p_, '_parent', None)
+        cmp_ = None
+        for t in tests:
+            neg = False
+            while isinstance(t, ast.UnaryOp) and isinstance(t.op, ast.Not):
+                t, neg = t.operand, not neg
+            if isinstance(t, ast.Compare) and len(t.ops) == 1 and isinstance(t.left, ast.Name) and isinstance(t.comparators[0], ast.Name) \
+                    and isinstance(t.ops[0], (ast.Lt, ast.LtE, ast.Gt, ast.GtE)) and 'prev' in (t.left.id + t.comparators[0].id):
+                cmp_ = (t, neg)
+        if cmp_ is None:
+            raise AnalysisError('mirror_descent_auto: the test that decides a restart was not found')
+        t, neg = cmp_
+        a, b, op = t.left.id, t.comparators[0].id, type(t.ops[0])
+        if 'prev' in a:          # orient as  new OP prev
+            a, b = b, a
+            op = {ast.Lt: ast.Gt, ast.Gt: ast.Lt, ast.LtE: ast.GtE, ast.GtE: ast.LtE}[op]
+        strict_up = (op is ast.Gt and not neg) or (op is ast.LtE and neg)
+        weak_up = (op is ast.GtE and not neg) or (op is ast.Lt and neg)
+        if not strict_up and not weak_up:
+            raise AnalysisError('mirror_descent_auto: restart test `%s` is in no recognised form' % U(cmp_[0]))
+        n_ob += 1
+        ctx.ob('restart-on-increase', fi, t, strict_up, 'the step size is halved and the descent restarted only when the loss went strictly UP; tested: `%s%s`%s'
+               % ('not ' if neg else '', U(t), '' if strict_up else ' - a loss that stays equal (nothing left to fit) restarts at every step size: unbounded recursion'),
+               construct='restart test of mirror_descent_auto')
+    ctx.floor('restart tests of mirror_descent_auto', n_ob, 1)
 
 
 def resolve_class(repo, name):
@@ -56,6 +106,7 @@ def run(ctx):
 
     check_grouping(ctx, setup)
     check_gbp_schedule(ctx)
+    check_restart_test(ctx)
     from ._generic import measurement_keys_kept, covering_relation
     bg_ = repo.func('src/mbi/region_graph.py', 'RegionGraph.build_graph')
     for n_ in ast.walk(bg_.node):
